@@ -24,7 +24,9 @@ LEVEL_TEXT = ('The complete product of the listed signs, magnitudes (integers, '
               'texts must give the exact rational value (equal when it is a '
               'double, within 4 ulp otherwise; ceiling for return_int), every '
               'other text ValueError and nothing else. QemuImgInfo size fields '
-              'are enumerated over the forms qemu-img prints.')
+              'are enumerated over the forms qemu-img prints, (N bytes) figures up to 2^64+1, '
+              'and whole documents in every order of their blocks (sizes, snapshot table with '
+              '1..3 rows, backing file, format-specific block) x 5 size spellings.')
 LEVEL_NOTE = ('Trusted: the hand-written reference grammar (vlib/checks/c10.py '
               'parse). Magnitudes are the listed literals, not all decimals; '
               'a 4-ulp tolerance is allowed where the exact value is not a '
@@ -32,7 +34,10 @@ LEVEL_NOTE = ('Trusted: the hand-written reference grammar (vlib/checks/c10.py '
 
 SIGNS = ['', '+', '-']
 MAGS = ['0', '1', '8', '1024', '1.5', '.5', '0.125', '123456789', '12345678901234567890',
-        '7.25', '0.1', '999.999', '1.', '', '1e3', '1,5', ' 1', '0x10', '1_0', '.', '1.2.3']
+        '7.25', '0.1', '999.999', '1.', '', '1e3', '1,5', ' 1', '0x10', '1_0', '.', '1.2.3',
+        # many fractional digits: a quantity a hair above / below an integer
+        '0.0000000004', '1.0000000001', '0.9999999999', '2.0000000000001', '0.30000000000000004',
+        '2.007', '0.000000000000000000001']
 TABLE_PREFIXES = ['k', 'ki', 'K', 'Ki', 'M', 'Mi', 'G', 'Gi', 'T', 'Ti', 'P', 'Pi', 'E', 'Ei',
                   'Z', 'Zi', 'Y', 'Yi', 'R', 'Ri', 'Q', 'Qi']
 PREFIXES = [''] + TABLE_PREFIXES + ['m', 'Km', 'i', 'KI', 'D', 'Di', 'kI', 'Mii', 'g']
@@ -227,11 +232,16 @@ def _qemu_case(vals, acc):
                  {'qemu': out, 'attr': attr, 'want': want})
 
 
+TAIL_FIGURES = [4096, 0, (1 << 53) + 1, (1 << 63) - 1, 9223372036854775295, (1 << 64) + 1,
+                12345678901234567891]
+
+
 def _qemu_tail_wins(vals, acc):
-    """An explicit '(N bytes)' figure takes precedence whatever the rounded figure looks like."""
+    """An explicit '(N bytes)' figure takes precedence whatever the rounded figure looks like,
+    and is taken digit for digit (it is an integer, not a float)."""
     from oslo_utils.imageutils import QemuImgInfo
-    (label, attr), figure = vals
-    out = 'image: x.img\n%s: %s (4096 bytes)\n' % (label, figure)
+    (label, attr), figure, n = vals
+    out = 'image: x.img\n%s: %s (%d bytes)\n' % (label, figure, n)
     with warnings.catch_warnings():
         warnings.simplefilter('ignore')
         try:
@@ -239,10 +249,60 @@ def _qemu_tail_wins(vals, acc):
         except Exception as e:
             got = ('raises', type(e).__name__)
     acc.nontrivial(out)
-    if got != 4096:
-        acc.fail('qemu:tail-precedence', {'line': '%s: %s (4096 bytes)' % (label, figure),
-                                          'got': repr(got), 'want': 4096},
-                 {'qemu': out, 'attr': attr, 'want': 4096})
+    if got != n or isinstance(got, (bool, float)):
+        acc.fail('qemu:tail-precedence', {'line': '%s: %s (%d bytes)' % (label, figure, n),
+                                          'got': repr(got), 'want': n},
+                 {'qemu': out, 'attr': attr, 'want': n})
+
+
+SIZE_FORMS = ['%(n)d', '64M', '64 MiB', '64M (%(n)d bytes)', '64 MiB (%(n)d bytes)']
+SNAP_ROWS = ['1        d9a9784a500742a7bb95627bb3aace38    0 2012-08-20 10:52:46 00:00:00.000',
+             '3        snap-two                         1.7G 2011-10-04 19:04:00 32:06:34.974',
+             '4        third                            11M 2013-01-01 00:00:01 100:00:00.001']
+
+
+def _qemu_layout_case(vals, acc):
+    """Whole documents: the order in which qemu-img's blocks follow each other (and what
+    directly follows the snapshot table) must not change what any field parses to."""
+    from oslo_utils.imageutils import QemuImgInfo
+    order, form, nsnap = vals
+    n = 67108864
+    size = SIZE_FORMS[form] % {'n': n}
+    blocks = {
+        'V': ['virtual size: ' + size],
+        'D': ['disk size: ' + size],
+        'C': ['cluster_size: ' + size],
+        'S': ['Snapshot list:', 'ID        TAG                 VM SIZE                DATE       VM CLOCK'] +
+             SNAP_ROWS[:nsnap],
+        'B': ['backing file: /a/b.img (actual path: /c/d.img)'],
+        'F': ['Format specific information:', '    compat: 1.1', '    lazy refcounts: false'],
+    }
+    lines = ['image: x.img', 'file format: qcow2']
+    for k in order:
+        lines += blocks[k]
+    out = '\n'.join(lines) + '\n'
+    acc.nontrivial(out)
+    with warnings.catch_warnings():
+        warnings.simplefilter('ignore')
+        try:
+            info = QemuImgInfo(out)
+            got = {'virtual_size': info.virtual_size, 'disk_size': info.disk_size,
+                   'cluster_size': info.cluster_size, 'backing_file': info.backing_file,
+                   'snapshots': [(x.get('id'), x.get('tag'), x.get('vm_size'), x.get('date'),
+                                  x.get('vm_clock')) for x in info.snapshots],
+                   'file_format': info.file_format, 'image': info.image}
+        except Exception as e:
+            got = {'raises': type(e).__name__}
+    want = {'virtual_size': n, 'disk_size': n, 'cluster_size': n, 'backing_file': '/c/d.img',
+            'snapshots': [tuple(r.split()[:4]) + (' '.join(r.split()[4:]),) for r in SNAP_ROWS[:nsnap]],
+            'file_format': 'qcow2', 'image': 'x.img'}
+    if got != want:
+        bad = sorted(k for k in want if got.get(k) != want[k]) if 'raises' not in got else ['raises']
+        acc.fail('qemu:document-layout:' + bad[0],
+                 {'order': ''.join(order), 'size_form': size, 'snapshot_rows': nsnap,
+                  'wrong_fields': {k: repr(got.get(k)) for k in bad}, 'raises': got.get('raises')},
+                 {'qemu_doc': out, 'want': {k: (v if k != 'snapshots' else [list(t) for t in v])
+                                            for k, v in want.items()}})
 
 
 def run(ctx):
@@ -255,7 +315,13 @@ def run(ctx):
     E.run(rep, 'string_to_bytes', [SIGNS, mags, PREFIXES, UNITS, SYSTEMS], _case)
     E.run(rep, 'qemu-human', [QEMU_FIELDS, QEMU_NUMS, QEMU_UNITS, QEMU_TAILS], _qemu_case)
     E.run(rep, 'qemu-tail-precedence', [QEMU_FIELDS, ['0.5', '1.0 XiB', '10g', '1.0 Gi', '4K', '4.0K',
-                                                     '1e+400 TiB', '3.9 KiB', '4096']], _qemu_tail_wins)
+                                                     '1e+400 TiB', '3.9 KiB', '4096', '8 EiB', '16E'],
+                                        TAIL_FIGURES], _qemu_tail_wins)
+    import itertools
+    orders = [o for k in (5, 6) for o in itertools.permutations('VDCSBF', k) if 'S' in o and
+              (k == 6 or 'F' not in o)]
+    E.run(rep, 'qemu-document-layout', [orders, list(range(len(SIZE_FORMS))), [1, 2, 3]],
+          _qemu_layout_case)
     # 'None' / 'unavailable' sizes and the JSON form pass numbers through
     from oslo_utils.imageutils import QemuImgInfo
     with warnings.catch_warnings():
@@ -281,6 +347,20 @@ def run(ctx):
 
 
 def replay(payload):
+    if 'qemu_doc' in payload:
+        from oslo_utils.imageutils import QemuImgInfo
+        with warnings.catch_warnings():
+            warnings.simplefilter('ignore')
+            try:
+                info = QemuImgInfo(payload['qemu_doc'])
+                got = {'virtual_size': info.virtual_size, 'disk_size': info.disk_size,
+                       'cluster_size': info.cluster_size, 'backing_file': info.backing_file,
+                       'snapshots': [[x.get('id'), x.get('tag'), x.get('vm_size'), x.get('date'),
+                                      x.get('vm_clock')] for x in info.snapshots],
+                       'file_format': info.file_format, 'image': info.image}
+            except Exception as e:
+                got = {'raises': type(e).__name__}
+        return {'violates': got != payload['want'], 'got': got}
     if 'qemu' in payload:
         from oslo_utils.imageutils import QemuImgInfo
         with warnings.catch_warnings():
